@@ -52,6 +52,31 @@ def _libcst_signature() -> Optional[List[str]]:
     return None
 
 
+def _libcst_defaults() -> Dict[str, Any]:
+    """default values of store_stub_in_context's parameters in the installed libcst (constants only; source, not import)"""
+    import sysconfig
+    out: Dict[str, Any] = {}
+    for key in ("purelib", "platlib"):
+        base = sysconfig.get_path(key)
+        p = os.path.join(base, "libcst", "codemod", "visitors", "_apply_type_annotations.py")
+        if os.path.exists(p):
+            tree = ast.parse(open(p).read())
+            for c in ast.walk(tree):
+                if isinstance(c, ast.ClassDef) and c.name == "ApplyTypeAnnotationsVisitor":
+                    for f in c.body:
+                        if isinstance(f, ast.FunctionDef) and f.name == "store_stub_in_context":
+                            a = f.args
+                            pos = a.posonlyargs + a.args
+                            for prm, dv in zip(pos[len(pos) - len(a.defaults):], a.defaults):
+                                if isinstance(dv, ast.Constant):
+                                    out[prm.arg] = dv.value
+                            for prm, dv in zip(a.kwonlyargs, a.kw_defaults):
+                                if isinstance(dv, ast.Constant):
+                                    out[prm.arg] = dv.value
+            return out
+    return out
+
+
 def overwrite_by_strategy(repo: Repo) -> Dict[str, Tuple[Any, Any]]:
     """strategy member -> (value apply_stub_handler binds to apply_stub_using_libcst's overwrite flag, expected value)"""
     from .glue_model import bind_values
@@ -92,7 +117,7 @@ def rule_binding(ctx: Ctx, repo: Repo) -> None:
         raise AnalysisError("the source of the installed libcst's ApplyTypeAnnotationsVisitor was not found")
     pos = [p for p in sig[: sig.index("*")] if p not in ("self", "cls")]
     ps = fi.positional_params()
-    for flag in (False, True):
+    for flag, OW in [(f_, o_) for f_ in (False, True) for o_ in (S("overwrite"), K(False), K(True))]:
         stores: List[Tuple[Tuple[V, ...], Dict[str, V]]] = []
 
         def hook(call, fname, fval, args, kwargs, st, _s=stores):
@@ -117,17 +142,28 @@ def rule_binding(ctx: Ctx, repo: Repo) -> None:
             return None
 
         sc = CliScenario(repo, CLI, "apply_stub_using_libcst", hook=hook)
-        sc.result({ps[0]: S("stub"), ps[1]: S("source"), ps[2]: S("overwrite"), ps[3]: K(flag)})
+        sc.result({ps[0]: S("stub"), ps[1]: S("source"), ps[2]: OW, ps[3]: K(flag)})
         ctx.check(len(stores) == 1, "R-C15.1", fi.fq, "the stub is stored in the libcst context once", construct=f"confine={flag}: {len(stores)} calls")
         for a, kw in stores:
             bound: Dict[str, V] = dict(zip(pos, a))
             bound.update(kw)
-            ctx.check(bound.get("overwrite_existing_annotations") == S("overwrite"), "R-C15.1", fi.fq,
+            ctx.check(bound.get("overwrite_existing_annotations") == OW, "R-C15.1", fi.fq,
                       "libcst's overwrite_existing_annotations receives the caller's overwrite flag (bound against the installed libcst's signature)",
                       construct=f"confine={flag}: {bound.get('overwrite_existing_annotations')} ; libcst parameters {sig}")
             ctx.check(bound.get("use_future_annotations") == K(flag), "R-C15.1", fi.fq, "libcst's use_future_annotations receives the confinement flag",
                       construct=f"confine={flag}: {bound.get('use_future_annotations')}")
             ctx.check(bound.get("stub") == R("module", of=S("stub")), "R-C15.1", fi.fq, "the stub handed to libcst is the parsed stub text", construct=f"{bound.get('stub')}")
+            # every other switch of libcst's codemod stays at libcst's own default: each of them (strict_posargs_matching,
+            # strict_annotation_matching, always_qualify_annotations, handle_function_bodies, create_class_attributes ...) changes
+            # WHICH functions get annotated or WHAT else is written into the source
+            defaults = _libcst_defaults()
+            for k_o, v_o in bound.items():
+                if k_o in ("context", "stub", "overwrite_existing_annotations", "use_future_annotations") or k_o not in sig:
+                    continue
+                d_o = defaults.get(k_o, "<no default>")
+                ctx.check(isinstance(v_o, K) and d_o != "<no default>" and v_o.v == d_o, "R-C15.1", fi.fq,
+                          "libcst's ApplyTypeAnnotationsVisitor runs with its own defaults for every option MonkeyType does not expose (an option that skips functions whose existing annotations differ textually would drop stub annotations silently)",
+                          construct=f"confine={flag}, overwrite={getattr(OW, 'v', OW)}: {k_o}={getattr(v_o, 'v', v_o)} (libcst's default: {d_o})")
             unknown = [k for k in bound if k not in sig]
             ctx.check(not unknown and len(a) <= len(pos), "R-C15.1", fi.fq, "every argument names a parameter the installed libcst has", construct=f"{unknown}")
 
